@@ -48,6 +48,38 @@ type execSpec struct {
 	// Repeat > 1: the execution is performed that many times in a row (a long-running server
 	// sees the same request hundreds of times)
 	Repeat int `json:"repeat,omitempty"`
+	// generated programs (exc generator): which dynamic invocation of the probe function fails,
+	// and how (0 = none); directories to create on the execution's disk
+	ProbeN    int      `json:"probe_fails_at,omitempty"`
+	ProbeKind string   `json:"probe_fails_as,omitempty"`
+	Dirs      []string `json:"dirs,omitempty"`
+}
+
+// c16Generated: a whole program of the exc generator (1-3 modules: functions, classes with
+// constructors and methods, custom exception classes, handlers, loops, deep recursion, imports
+// of modules and of 《@探针》) as one execution of a history. As a polluter it may die at a drawn
+// probe invocation ("leaving calls unfinished through errors"); as a victim it is any
+// deterministic program: whatever it displays after other programs of the process it must
+// display when run alone after a restart.
+func c16Generated(t *zsim.Tape) *execSpec {
+	p := genExcProgram(t)
+	excRender(t, p)
+	sp := &execSpec{ID: "generated-program", Mode: "file", Files: map[string]string{}, Dirs: []string{excDirPath}}
+	for _, m := range p.Mods {
+		if m.Name == "主" {
+			sp.Main = m.Source
+		} else {
+			sp.Files[modFile(m.Name)] = m.Source
+		}
+	}
+	if t.Draw(3) == 1 {
+		if base := refRun(p, xPlan{}); base.Probes > 0 {
+			sp.ProbeN = 1 + t.Draw(base.Probes)
+			sp.ProbeKind = []string{"signal", "goerror", "runtime", "custom"}[t.Draw(4)]
+			sp.ID = "generated-program-dying"
+		}
+	}
+	return sp
 }
 
 // one ZnHttpHandler per interpreter object, as in a server: requests of a history that reuse
@@ -59,6 +91,10 @@ func runSpec(w *zsim.World, in *exec.Interpreter, sp *execSpec) ExecResult {
 	for p, s := range sp.Files {
 		d.Put(p, []byte(s))
 	}
+	for _, dir := range sp.Dirs {
+		d.MkdirAll(dir)
+	}
+	w.Ext["probe"] = &probeState{plan: xPlan{N: sp.ProbeN, Kind: sp.ProbeKind}}
 	var inputs map[string]rElement
 	if sp.VarInput != "" {
 		var res ExecResult
@@ -335,7 +371,7 @@ func c16Related(t *zsim.Tape, p *execSpec) *execSpec {
 	case strings.HasPrefix(id, "other-project"), strings.HasPrefix(id, "define:"), strings.HasPrefix(id, "declare:"):
 		return v([]uint32{5, 7, 6}[t.Draw(3)], uint32(t.Draw(3)))
 	case strings.HasPrefix(id, "import:"), id == "lib-call-fails":
-		return v([]uint32{4, 9, 10}[t.Draw(3)])
+		return v([]uint32{4, 9, 10, 15}[t.Draw(4)], uint32(t.Draw(3)))
 	case id == "dies-mid-call":
 		return v([]uint32{6, 2, 3}[t.Draw(3)])
 	case strings.HasPrefix(id, "http-response-patched:"):
@@ -436,10 +472,26 @@ func c16Polluter(t *zsim.Tape) *execSpec {
 	}
 }
 
+// c16OwnType: programs that define a type of their own as their first declaration, build an
+// object and call its method (which uses names of the main program) - with no import, with a
+// partial import, and with a user module imported.
+func c16OwnType(variant int) *execSpec {
+	body := "定义狗：\n\t其名 = “小黄”\n\n\t如何狂吠？\n\t\t输出（叫声）\n\n如何叫声？\n\t输出“汪汪汪”\n\n令小狗 = （新建狗）\n（显示：小狗 之 名）\n输出以小狗（狂吠）\n"
+	switch variant {
+	case 1:
+		return &execSpec{ID: "own-type:partial-import", Mode: "script", Main: "导入《@JSON》的生成JSON\n\n" + body}
+	case 2:
+		return &execSpec{ID: "own-type:module-import", Mode: "file", Files: map[string]string{"/proj/工具.zn": "如何帮手？\n\t输出“真帮手”\n"}, Main: "导入“工具”\n\n" + body}
+	}
+	return &execSpec{ID: "own-type:no-import", Mode: "script", Main: body}
+}
+
 // victim draws a program from the fixed battery that reads predefined state.
 func c16Victim(t *zsim.Tape) *execSpec {
 	gs := c16Globals()
-	switch t.Draw(15) {
+	switch t.Draw(16) {
+	case 15:
+		return c16OwnType(t.Draw(3))
 	case 14:
 		return c16Response(t.Draw(3), false)
 	case 13: // an entry program that only looks at its request
@@ -558,7 +610,7 @@ func c16EnumPolluters() []*execSpec {
 	return out
 }
 
-const c16Victims = 15
+const c16Victims = 16
 
 func c16PartA(t *zsim.Tape, cfg *hlib.Config) *hlib.Outcome {
 	sc := &c16Scenario{Part: "A:history"}
@@ -585,6 +637,29 @@ func c16PartA(t *zsim.Tape, cfg *hlib.Config) *hlib.Outcome {
 		}
 	}
 	sc.Shared = append(sc.Shared, t.Draw(2) == 0)
+	if t.Draw(5) == 4 {
+		// one history in five consists of GENERATED programs: nothing in it is aimed at a
+		// particular piece of state, so it is what finds state nobody thought of (recycled
+		// symbol tables, frames, caches keyed by something two programs share)
+		sc.History, sc.Shared = nil, nil
+		n = 1 + t.Draw(3)
+		for i := 0; i < n; i++ {
+			sc.History = append(sc.History, c16Generated(t))
+			sc.Shared = append(sc.Shared, t.Draw(2) == 0)
+		}
+		sc.Shared = append(sc.Shared, t.Draw(2) == 0)
+		switch t.Draw(4) {
+		case 0:
+			sc.Victim = c16Generated(t)
+		case 1:
+			again := *sc.History[t.Draw(n)]
+			again.ID = "again:" + again.ID
+			sc.Victim = &again
+		case 2:
+			sc.Victim = c16OwnType(t.Draw(3))
+		default: // a victim of the battery after generated programs
+		}
+	}
 	if cfg.Int("enum", 0) > 0 {
 		// the first runs enumerate (single polluter) x (victim kind) completely
 		ps := c16EnumPolluters()
